@@ -39,7 +39,7 @@ class ModRef:
     extern: bool = False
 
 
-@dataclass
+@dataclass(repr=False)
 class FuncRef:
     mi: object            # ModuleInfo
     cls: object           # ClassInfo | None
@@ -91,7 +91,7 @@ class SpecConst:
 
 
 # ---- class table
-@dataclass
+@dataclass(repr=False)
 class ClassInfo:
     cid: int
     name: str
@@ -153,6 +153,9 @@ class ClassInfo:
 
     def __hash__(self):
         return hash(self.cid)
+
+    def __repr__(self):
+        return f"<class {self.qualname}#{self.cid}>"
 
     def __eq__(self, o):
         return isinstance(o, ClassInfo) and o.cid == self.cid
@@ -260,12 +263,15 @@ class ClassTable:
                 else:
                     ci.class_consts[st.targets[0].id] = st.value
         # instance attributes declared in __init__ (self.x: T = ...)
-        init = ci.methods.get("__init__")
-        if init is not None and not ci.dataclass:
-            for st in ast.walk(init.node):
-                if isinstance(st, ast.AnnAssign) and isinstance(st.target, ast.Attribute) and \
-                        isinstance(st.target.value, ast.Name) and st.target.value.id == "self":
-                    ci.fields.setdefault(st.target.attr, parse_ann(mi, st.annotation))
+        if not ci.dataclass:
+            for m in ci.methods.values():
+                for st in ast.walk(m.node):
+                    if isinstance(st, ast.AnnAssign) and isinstance(st.target, ast.Attribute) and \
+                            isinstance(st.target.value, ast.Name) and st.target.value.id == "self":
+                        attr = st.target.attr
+                        if attr.startswith("__") and not attr.endswith("__"):
+                            attr = f"_{ci.name.lstrip('_')}{attr}"
+                        ci.fields.setdefault(attr, parse_ann(mi, st.annotation))
         return ci
 
     # -- external classes (mypy, griffe, pathlib): facts read from the installed library
